@@ -174,9 +174,11 @@ Proof.
   destruct (make_problem_Ok_inv _ _ _ MP) as [_ [PI ->]].
   unfold is_documented_refusal.
   destruct (tm_init ord _) as [[]|e0] eqn:TI.
-  - rewrite (refusal_classes ord ordp P1 P2 _ c e AC PI TI AW H). reflexivity.
+  - pose proof (refusal_classes ord ordp P1 P2 (Problem a (fill_formats (variable_orders a) fs)) c e AC PI TI AW H) as R.
+    rewrite R. reflexivity.
   - inversion H; subst.
-    destruct (proj2 (tm_init_spec ord P1 _ PI) _ TI) as [i [-> _]]. apply orb_true_r.
+    destruct (proj2 (tm_init_spec ord P1 (Problem a (fill_formats (variable_orders a) fs)) PI) _ TI) as [i [-> _]].
+    apply orb_true_r.
 Qed.
 
 Lemma tensor_method_call_refusals : forall ord ordp,
